@@ -118,8 +118,12 @@ type Case struct {
 	Callers  [][]int `json:"callers,omitempty"` // per caller: order in which it asks the questions of every wave
 	DelaysUs []int   `json:"delays_us,omitempty"`
 	ErrEvery int     `json:"err_every,omitempty"`
-	Report   string  `json:"report,omitempty"` // race
-	Class    string  `json:"class,omitempty"`
+	// stress: cache maintenance running concurrently with the callers
+	GC     bool   `json:"gc,omitempty"`     // FailoverGroup.CleanCache() loops in its own goroutine for the whole run
+	Fill   int    `json:"fill,omitempty"`   // distinct instant queries answered (and cached) before the callers start
+	Rounds int    `json:"rounds,omitempty"` // after its waves every caller asks all (by then answered) questions again, this many times
+	Report string `json:"report,omitempty"` // race
+	Class  string `json:"class,omitempty"`
 }
 
 var errAnswers = []fakeprom.Answer{
@@ -882,7 +886,7 @@ func isSharedSlice(shared map[string]bool, p fakeprom.Pending) bool {
 }
 
 func caseKey(c Case) string {
-	return fmt.Sprintf("%s|%d|%v|%v|%d|%d|%v|%v|%d", c.Kind, c.Concurrency, c.Questions, c.Actions, c.Procs, c.Waves, c.Callers, c.DelaysUs, c.ErrEvery)
+	return fmt.Sprintf("%s|%d|%v|%v|%d|%d|%v|%v|%d|%v|%d|%d", c.Kind, c.Concurrency, c.Questions, c.Actions, c.Procs, c.Waves, c.Callers, c.DelaysUs, c.ErrEvery, c.GC, c.Fill, c.Rounds)
 }
 
 var wsRe = regexp.MustCompile(`\s+`)
@@ -1019,6 +1023,11 @@ func genStress(t *rapid.T) Case {
 	}
 	c.DelaysUs = rapid.SliceOfN(rapid.IntRange(0, 3000), 8, 16).Draw(t, "delays")
 	c.ErrEvery = rapid.SampledFrom([]int{0, 0, 0, 4, 7}).Draw(t, "errEvery")
+	if rapid.Bool().Draw(t, "gc") {
+		c.GC = true
+		c.Fill = rapid.SampledFrom([]int{0, 100, 300, 600}).Draw(t, "fill")
+		c.Rounds = rapid.IntRange(1, 4).Draw(t, "rounds")
+	}
 	return c
 }
 
@@ -1047,7 +1056,39 @@ func runStress(c Case, tol tolerance) (res stressResult, err error) {
 	for i, d := range c.DelaysUs {
 		delays[i] = time.Duration(d) * time.Microsecond
 	}
+	if c.Fill > 0 {
+		// a few hundred unrelated entries in the cache, so that maintenance has something to scan
+		s.g.SetFree(nil, 0)
+		var fw sync.WaitGroup
+		for w := 0; w < 8; w++ {
+			fw.Add(1)
+			go func() {
+				defer fw.Done()
+				for i := w; i < c.Fill; i += 8 {
+					_, _ = s.fg.Query(context.Background(), fmt.Sprintf("fill_%d", i))
+				}
+			}()
+		}
+		fw.Wait()
+	}
 	s.g.SetFree(delays, c.ErrEvery)
+	if c.GC {
+		stopGC := make(chan struct{})
+		gcDone := make(chan struct{})
+		go func() {
+			defer close(gcDone)
+			for {
+				select {
+				case <-stopGC:
+					return
+				default:
+				}
+				s.fg.CleanCache()
+				runtime.Gosched()
+			}
+		}()
+		defer func() { close(stopGC); <-gcDone }()
+	}
 
 	var wg sync.WaitGroup
 	var mu sync.Mutex
@@ -1069,22 +1110,25 @@ func runStress(c Case, tol tolerance) (res stressResult, err error) {
 				}
 			}()
 			<-gate
-			for wave := 1; wave <= c.Waves; wave++ {
-				for _, qi := range order {
-					qi = qi % len(c.Questions)
-					r, err := s.ask(c.Questions[qi], wave)
-					progress.Add(1)
-					if errors.Is(err, errWrongAnswer) {
-						mu.Lock()
-						if wrong[qi] == nil {
-							wrong[qi] = err
+			// the waves, then `Rounds` more passes over the same (by then answered) questions
+			for pass := 0; pass <= c.Rounds; pass++ {
+				for wave := 1; wave <= c.Waves; wave++ {
+					for _, qi := range order {
+						qi = qi % len(c.Questions)
+						r, err := s.ask(c.Questions[qi], wave)
+						progress.Add(1)
+						if errors.Is(err, errWrongAnswer) {
+							mu.Lock()
+							if wrong[qi] == nil {
+								wrong[qi] = err
+							}
+							mu.Unlock()
 						}
-						mu.Unlock()
-					}
-					if err == nil {
-						mu.Lock()
-						results[k{qi, wave}] = append(results[k{qi, wave}], r)
-						mu.Unlock()
+						if err == nil {
+							mu.Lock()
+							results[k{qi, wave}] = append(results[k{qi, wave}], r)
+							mu.Unlock()
+						}
 					}
 				}
 			}
@@ -1245,6 +1289,9 @@ func stressClass(c Case) string {
 	e := "noerr"
 	if c.ErrEvery > 0 {
 		e = "err"
+	}
+	if c.GC {
+		e += ":gc"
 	}
 	return fmt.Sprintf("%s:c=%d:procs=%d:%s", c.Kind, c.Concurrency, c.Procs, e)
 }
